@@ -3,6 +3,11 @@
 // and implements the extracted-C API (same names, same C structs) on top of the real C++ objects.  The fidelity check
 // and the counterexample replay link harnesses against it instead of the extracted C.
 #pragma once
+#include <setjmp.h>
+#include <stdbool.h>
+#include <stddef.h>
+#include <stdint.h>
+#include <string.h>
 #include <algorithm>
 #include <array>
 #include <atomic>
@@ -66,10 +71,10 @@ template <class C, size_t N> inline void br_get(C &c, const std::bitset<N> &x) {
 template <class C, size_t N> inline void br_set(std::bitset<N> &x, const C &c) { x = std::bitset<N>(c); }
 
 // run a piece of real code; map its three legal exits to the harness outcome classes
-#define BRIDGE_RUN(stmt)                                                                  \
+#define BRIDGE_RUN(...)                                                                   \
     do {                                                                                  \
         int br_outcome = 0;                                                               \
-        try { stmt; }                                                                     \
+        try { __VA_ARGS__; }                                                                  \
         catch (const VerifAbort &) { br_outcome = 1; }                                    \
         catch (const std::runtime_error &) { br_outcome = 2; }                            \
         catch (const std::bad_function_call &) { br_outcome = 3; }                        \
